@@ -1445,23 +1445,23 @@ Qed.
 Definition PosIso (s : state) : Prop := forall o e a, hget s o = Some (OIsotope e a) -> (0 < a)%Z.
 Definition pos_op (o : op) : Prop := match o with AddIso _ a => (0 < a)%Z | _ => True end.
 
-Lemma posiso_ionset_getitem : forall eb s b q, Inv eb s -> PosIso s -> PosIso (fst (ionset_getitem s b q)).
+Lemma posiso_ionset_getitem : forall s b q, PosIso s -> PosIso (fst (ionset_getitem s b q)).
 Proof.
-  intros eb s b q I P. unfold ionset_getitem. destruct (get2 (ionsets s) b q); auto.
+  intros s b q P. unfold ionset_getitem. destruct (get2 (ionsets s) b q); auto.
   destruct (owner_ions s b); auto. destruct (existsb (Z.eqb q) l); auto.
   intros o e a G. change (hget (fst (alloc s (OIon b q))) o = Some (OIsotope e a)) in G.
   rewrite hget_alloc in G. destruct (Pos.eqb o (next s)); [discriminate|]. eapply P; eauto.
 Qed.
-Lemma posiso_add_isotope : forall eb s x a, Inv eb s -> PosIso s -> (0 < a)%Z -> PosIso (fst (add_isotope s x a)).
+Lemma posiso_add_isotope : forall s x a, PosIso s -> (0 < a)%Z -> PosIso (fst (add_isotope s x a)).
 Proof.
-  intros eb s x a I P Ha. unfold add_isotope. destruct (root_info s x) as [[[[e T] z] io]|]; auto.
+  intros s x a P Ha. unfold add_isotope. destruct (root_info s x) as [[[[e T] z] io]|]; auto.
   destruct (get2 (isos s) e a); auto.
   intros o e' a' G. change (hget (fst (alloc s (OIsotope e a))) o = Some (OIsotope e' a')) in G.
   rewrite hget_alloc in G. destruct (Pos.eqb o (next s)); [inversion G; subst; exact Ha|]. eapply P; eauto.
 Qed.
-Lemma posiso_make : forall eb s k, Inv eb s -> PosIso s -> PosIso (fst (make s k)).
+Lemma posiso_make : forall s k, PosIso s -> PosIso (fst (make s k)).
 Proof.
-  intros eb s k I P. destruct k; simpl; auto.
+  intros s k P. destruct k; simpl; auto.
   - destruct (table_getitem s T z); auto.
   - destruct (table_getitem s T z); eauto using posiso_ionset_getitem.
   - destruct (table_getitem s T z); auto. destruct (elem_getitem s o a); eauto using posiso_ionset_getitem.
